@@ -6,6 +6,8 @@ mod c16;
 mod c13;
 mod c08;
 mod c05;
+mod c09;
+mod c01;
 
 fn main() {
     let args: Vec<String> = std::env::args().collect();
@@ -58,7 +60,9 @@ fn generate(prop: &str, seed: u64, thorough: bool) -> Vec<serde_json::Value> {
         "C16" => c16::generate(seed, thorough),
         "C08" => c08::generate(seed, thorough),
         "C05" => c05::generate(seed, thorough),
+        "C09" => c09::generate(seed, thorough),
         "C11" => c05::generate_c11(seed, thorough),
+        "C01" | "C02" | "C17" => c01::generate(prop, seed, thorough),
         "C12" => c08::generate_c12(seed, thorough),
         other => { eprintln!("unknown property {}", other); std::process::exit(2); }
     }
@@ -70,6 +74,8 @@ fn run_case(prop: &str, id: usize, input: &serde_json::Value) {
         "C16" => c16::run_case(id, input),
         "C08" | "C12" => c08::run_case(id, input),
         "C05" | "C11" => c05::run_case(id, input),
+        "C09" => c09::run_case(id, input),
+        "C01" | "C02" | "C17" => c01::run_case(id, input),
         other => { eprintln!("unknown property {}", other); std::process::exit(2); }
     }
 }
